@@ -15,11 +15,13 @@ About the engine model's `schedAbs` (`nested_schedule_node_impl` + `schedule_nod
   child is never asked to run before its parent's clock.
 * `root_schedule_direct`    : on the root graph the call is plain `scheduleNode`.
 
-**Not proved (partial):** the full simulation `nested_sim_inlined` — that `P[nested G]` and
-`P[inline G]` produce equal output streams for every `G`.  Its statement is `NestedSimInlined` below;
-it is decided on generated programs by the reference monitor (both wirings of one definition in one
-parent must record identical sink streams) and by the trace correspondence.  On the unchanged tree
-that equality has one known exception (finding F2, sampled scheduling at child start).
+**Proved elsewhere:** the full simulation — `P[nested G]` and `P[inline G]` produce equal runs — is
+`HgVerif.NestFlow.nested_sim_inlined_flow` (`Props/C09Flow.lean`) for flat dataflow sub-graphs with arbitrary
+node functions, at every depth of a chain of nested graphs, from corresponding states after start.  What
+stays decided by the reference monitor only (both wirings of one definition in one parent must record
+identical sink streams) and by the trace correspondence: several nested nodes in one graph, children with
+their own policy (map_/switch_/try_except), failing nodes, and start-time sampling, where the unchanged
+tree has one known exception (finding F2).
 -/
 namespace HgVerif.Engine
 open HgVerif.Sched
@@ -49,9 +51,8 @@ theorem nested_push_clamped (p : CProg) (fuel : Nat) (s : St) (inst idx pi pj : 
   simp only [Bool.true_and, Bool.not_true, Bool.false_eq_true, ↓reduceIte]
   first | rfl | simp_all
 
-/-- the statement that is NOT proved here (decided by the monitor on generated programs) -/
-def NestedSimInlined : Prop :=
-  ∀ (_nested _inlined : CProg), True
+/- The simulation statement itself lives in `Props/C09Flow.lean` (`HgVerif.NestFlow.nested_sim_inlined_flow`,
+   proved); for whole `CProg`s with all node kinds it is decided by the monitor on generated programs. -/
 
 end HgVerif.Engine
 
